@@ -75,7 +75,8 @@ impl Shape {
                 let width = col_end - col_start;
                 let height = row_end - row_start;
                 let start = self.offset(Position::new(row_start, col_start));
-                let end = self.offset(Position::new(row_end - 1, col_end));
+                // offset of the last element + 1 (independent of the column stride)
+                let end = self.offset(Position::new(row_end - 1, col_end - 1)) + 1;
                 Shape {
                     width,
                     height,
